@@ -283,3 +283,57 @@ pub fn run_df(ctx: &SessionContext, sql: &str) -> Result<Answer, String> {
         Err(_) => Err("datafusion timeout".into()),
     }
 }
+
+// ---------------------------------------------------------------------------
+// custom optimizer pipelines (C03, C23, C31, explainers)
+
+use query_engine::optimizer::OptimizerRule;
+
+/// The production rule list of `Optimizer::new()`, in order, as (name, rule).
+/// Statistics-aware constructors are substituted by `Optimizer::optimize`
+/// itself when statistics are attached, exactly as in production.
+pub fn production_rules() -> Vec<Arc<dyn OptimizerRule>> {
+    use query_engine::optimizer as o;
+    vec![
+        Arc::new(o::ConstantFolding),
+        Arc::new(o::DeriveOrPredicates),
+        Arc::new(o::PredicatePushdown),
+        Arc::new(o::FlattenDependentJoin),
+        Arc::new(o::SubqueryDecorrelation),
+        Arc::new(o::SemiJoinPushdown),
+        Arc::new(o::JoinReorder::new()),
+        Arc::new(o::PredicatePushdown),
+        Arc::new(o::HavingTotalCse),
+        Arc::new(o::GroupKeyReduction::new()),
+        Arc::new(o::EagerAggregation::new()),
+        Arc::new(o::PackedGroupKeys::new()),
+        Arc::new(o::PackedJoinKeys::new()),
+        Arc::new(o::ProjectionPushdown),
+        Arc::new(o::VectorSearchPushdown),
+    ]
+}
+
+pub fn optimizer_without(ctx: &ExecutionContext, drop: &[&str]) -> Optimizer {
+    let rules: Vec<Arc<dyn OptimizerRule>> = production_rules().into_iter().filter(|r| !drop.contains(&r.name())).collect();
+    let o = Optimizer::with_rules(rules);
+    let st = stats_of(ctx);
+    if st.is_empty() {
+        o
+    } else {
+        o.with_table_statistics(st)
+    }
+}
+
+/// Bind, optimize with `opt`, lower and run — `ctx.sql` with another optimizer.
+pub fn run_sql_with(ctx: &Arc<ExecutionContext>, sql: &str, opt: &Optimizer) -> Outcome {
+    let plan = match ctx.logical_plan(sql) {
+        Ok(p) => p,
+        Err(e) => return Outcome::Err(e.to_string()),
+    };
+    let optimized = match std::panic::catch_unwind(std::panic::AssertUnwindSafe(|| opt.optimize(plan))) {
+        Ok(Ok(p)) => p,
+        Ok(Err(e)) => return Outcome::Err(format!("optimizer: {}", e)),
+        Err(_) => return Outcome::Panic("optimizer panicked".into()),
+    };
+    run_logical(ctx, &optimized)
+}
